@@ -40,9 +40,12 @@ BUILTIN_NAMES = ['len', 'str', 'id', 'int', 'list', 'type', 'float']
 POOL = ['a', 'b', 'c'] + BUILTIN_NAMES + ['get', 'getname', 're', 'functools', 'intern', 'convert', 'econtextual', 'ns']
 
 
+GK = 'gk'          # a global that the macro redefines with a new value on every call
+
+
 def probe(names):
     parts = []
-    for n in names:
+    for n in list(names) + [GK]:
         if n in BUILTIN_NAMES:
             parts.append("${'B' if %s is BI_%s else %s}" % (n, n, n))
         else:
@@ -121,7 +124,7 @@ MACRO_G = 'gm'
 
 
 def macro_src(names):
-    return '<m metal:define-macro="mac">M%s<i tal:define="global %s 77; %s 88">%s</i>%s</m>' % (
+    return '<m metal:define-macro="mac">M%s<i tal:define="global %s 77; global gk next(ctr); %s 88">%s</i>%s</m>' % (
         probe(names), MACRO_G, names[0], probe(names + [MACRO_G]), probe(names + [MACRO_G]))
 
 
@@ -134,11 +137,12 @@ class Interp:
         self.globals = {}
         self.out = []
         self.quirk = quirk_reimpose
+        self.ctr = itertools.count(500)
 
     def pr(self, names=None):
         env = self.env
         parts = []
-        for n_ in names or self.names:
+        for n_ in list(names or self.names) + [GK]:
             if n_ in env:
                 parts.append('' if env[n_] is None else str(env[n_]))
             else:
@@ -152,6 +156,7 @@ class Interp:
         # <i tal:define="global gm 77; names[0] 88">
         self.env[MACRO_G] = 77
         self.globals[MACRO_G] = 77
+        self.env[GK] = self.globals[GK] = next(self.ctr)
         old = self.env.get(names[0], MISSING)
         self.env[names[0]] = 88
         self.out.append('<i>')
@@ -209,6 +214,7 @@ class Interp:
             self.macro_body()
             self.env = env
             env[MACRO_G] = 77
+            env[GK] = self.globals[GK]
             if self.quirk:
                 # known mechanism: after a macro call ALL global definitions made so far are
                 # re-imposed on the current scope, overriding local bindings of the same name
@@ -298,9 +304,11 @@ def layer_probes(ctx, n, mscope):
             it.macro_body()          # the defining element renders in place, too
             it.env = dict(pre)
             it.env[MACRO_G] = 77
+            it.env[GK] = it.globals[GK]
             it.run(root)
             want.append(''.join(it.out))
         kw = dict(pre)
+        kw['ctr'] = itertools.count(500)
         for b in BUILTIN_NAMES:
             kw['BI_' + b] = getattr(builtins, b)
         try:
@@ -311,7 +319,7 @@ def layer_probes(ctx, n, mscope):
         ctx.case(key=(shape(root), tuple(n_ in BUILTIN_NAMES for n_ in names), tuple(sorted(pre))),
                  nontrivial=has_collision(root, pre),
                  sample={'source': src, 'prebound': pre, 'rendered': got} if case < 2 else None)
-        globs = {b[0] for b in all_binds(root, 'gdefine')} | {MACRO_G}
+        globs = {b[0] for b in all_binds(root, 'gdefine')} | {MACRO_G, GK}
         mscope.check(kw, globs, 'probe program')
         if got != want[0]:
             key = 'probe-output-differs'
@@ -456,6 +464,7 @@ def replay(data):
     if data.get('kind') == 'probe':
         from chameleon import PageTemplate
         kw = dict(data['pre'])
+        kw['ctr'] = itertools.count(500)
         for b in BUILTIN_NAMES:
             kw['BI_' + b] = getattr(builtins, b)
         try:
